@@ -27,8 +27,10 @@ enum Shape {
     SetFalse,
     PosSet,
     PosAppend,
+    /// Append positional with the default value count: every value is an occurrence of its own
+    PosAppend1,
 }
-const SHAPES: [Shape; 8] = [Shape::SetOpt, Shape::AppendOpt, Shape::AppendOpt0, Shape::Count, Shape::SetTrue, Shape::SetFalse, Shape::PosSet, Shape::PosAppend];
+const SHAPES: [Shape; 9] = [Shape::SetOpt, Shape::AppendOpt, Shape::AppendOpt0, Shape::Count, Shape::SetTrue, Shape::SetFalse, Shape::PosSet, Shape::PosAppend, Shape::PosAppend1];
 /// `args_override_self_on_parent`: the setting is made on the root only (documented to reach every
 /// child) and x, y, z live in a subcommand; every line starts with `sub`
 const SELF_MODES: [&str; 4] = ["none", "args_override_self", "overrides_with_self", "args_override_self_on_parent"];
@@ -54,10 +56,11 @@ fn build_spec(shape: Shape, self_mode: &str, rel: &[(&str, &str)]) -> CmdSpec {
             p.num_args = Some((1, None));
             p
         }
+        Shape::PosAppend1 => ArgSpec::pos("x", 1),
     };
     x.action = Some(match shape {
         Shape::SetOpt | Shape::PosSet => Act::Set,
-        Shape::AppendOpt | Shape::AppendOpt0 | Shape::PosAppend => Act::Append,
+        Shape::AppendOpt | Shape::AppendOpt0 | Shape::PosAppend | Shape::PosAppend1 => Act::Append,
         Shape::Count => Act::Count,
         Shape::SetTrue => Act::SetTrue,
         Shape::SetFalse => Act::SetFalse,
@@ -105,7 +108,7 @@ enum Tok {
 
 fn tokens(shape: Shape) -> Vec<Tok> {
     match shape {
-        Shape::SetOpt | Shape::AppendOpt | Shape::PosSet | Shape::PosAppend => vec![Tok::X(Some("v1")), Tok::X(Some("v2")), Tok::Y, Tok::Z],
+        Shape::SetOpt | Shape::AppendOpt | Shape::PosSet | Shape::PosAppend | Shape::PosAppend1 => vec![Tok::X(Some("v1")), Tok::X(Some("v2")), Tok::Y, Tok::Z],
         Shape::AppendOpt0 => vec![Tok::X(Some("v1")), Tok::X(None), Tok::Y, Tok::Z],
         _ => vec![Tok::X(None), Tok::Y, Tok::Z],
     }
@@ -116,7 +119,7 @@ fn spell(shape: Shape, seq: &[Tok]) -> Vec<Vec<u8>> {
     for t in seq {
         match t {
             Tok::X(Some(v)) => match shape {
-                Shape::PosSet | Shape::PosAppend => out.push(v.as_bytes().to_vec()),
+                Shape::PosSet | Shape::PosAppend | Shape::PosAppend1 => out.push(v.as_bytes().to_vec()),
                 _ if shape == Shape::AppendOpt0 => out.push(format!("--x={}", v).into_bytes()),
                 _ => {
                     out.push(b"--x".to_vec());
@@ -153,7 +156,7 @@ fn fold(spec: &CmdSpec, shape: Shape, seq: &[Tok]) -> Result<Folded, String> {
         };
         let a = spec.arg(id).unwrap();
         let is_pos = a.is_positional();
-        if is_pos && prev_was_pos_x && id == "x" {
+        if is_pos && prev_was_pos_x && id == "x" && shape != Shape::PosAppend1 {
             // continues the current occurrence
             if let Some(o) = st.get_mut("x") {
                 if let Some(l) = o.last_mut() {
@@ -202,7 +205,7 @@ fn fold(spec: &CmdSpec, shape: Shape, seq: &[Tok]) -> Result<Folded, String> {
 
 fn read_x(m: &ArgMatches, shape: Shape) -> (Vec<Vec<String>>, String) {
     match shape {
-        Shape::SetOpt | Shape::AppendOpt | Shape::AppendOpt0 | Shape::PosSet | Shape::PosAppend => {
+        Shape::SetOpt | Shape::AppendOpt | Shape::AppendOpt0 | Shape::PosSet | Shape::PosAppend | Shape::PosAppend1 => {
             let occ: Vec<Vec<String>> = m
                 .get_occurrences::<String>("x")
                 .map(|o| o.map(|g| g.cloned().collect()).collect())
@@ -290,7 +293,7 @@ fn judge(spec: &CmdSpec, cmd: &clap::Command, shape: Shape, seq: &[Tok], argv: &
                         bad.push((format!("{:?}: final value is not that of the last surviving occurrence", shape), format!("got {:?} want {:?}", occ, want_last)));
                     }
                 }
-                Shape::AppendOpt | Shape::AppendOpt0 | Shape::PosAppend => {
+                Shape::AppendOpt | Shape::AppendOpt0 | Shape::PosAppend | Shape::PosAppend1 => {
                     if occ != w.x {
                         let cause = if occ.concat() == w.x.concat() {
                             format!("{:?}: occurrence boundaries not kept", shape)
@@ -384,7 +387,7 @@ fn main() {
         for sm in SELF_MODES {
             // `Append` together with an explicit overrides_with(self) is contradictory and pinned
             // by neither the property nor the documentation: not enumerated
-            if matches!(s, Shape::AppendOpt | Shape::AppendOpt0 | Shape::PosAppend) && sm == "overrides_with_self" {
+            if matches!(s, Shape::AppendOpt | Shape::AppendOpt0 | Shape::PosAppend | Shape::PosAppend1) && sm == "overrides_with_self" {
                 continue;
             }
             for r in 0..RELS.len() {
